@@ -151,6 +151,9 @@ def run_config(c: dict) -> dict:
     ids = make_ids()
     rng = np.random.RandomState(c["seed"] + 7)
     init_kt = ttb.ktensor([rng.rand(s, rank) for s in shape], np.ones(rank))
+    if c.get("eye"):
+        # a guess whose columns are exactly orthogonal (coordinate vectors): the Gram matrices have exact zeros
+        init_kt = ttb.ktensor([np.roll(np.eye(s, rank), k, axis=0) for k, s in enumerate(shape)], np.ones(rank))
     dimorder = np.array(c["dimorder"], dtype=int)
     optdims = np.array(c["optdims"], dtype=int)
 
@@ -266,7 +269,7 @@ def configs(cfgs: List[dict], tier: str) -> List[dict]:
                         "maxiters": c["maxiters"], "stoptol": rr.choice([0.0, 1e-4]), "printitn": rr.choice([0, 1, 2]),
                         "fixsigns": rr.choice([False, True]), "init": init,
                         "dtype": rr.choice(["float", "float", "int", "int8"]) if kind in ("dense", "sparse") else "float",
-                        "scale2": rr.choice([0, 0, -40, 30, -70])})
+                        "scale2": rr.choice([0, 0, -40, 30, -70]), "eye": rr.random() < 0.25})
             i += 1
     return out
 
